@@ -51,7 +51,8 @@ def gconv(api, rng, alpha, nonempty_prefix):
             # synonyms on either side independently: records with only URI synonyms, only CURIE synonyms, both, none
             recs.append(spec.Rec(
                 rstr(rng, alpha, 1 if nonempty_prefix else 0, 3), rstr(rng, alpha, 0, 5),
-                tuple(rstr(rng, alpha, 1, 3) for _ in range(rng.randint(1, 2))) if rng.random() < 0.45 else (),
+                # (a CURIE-prefix synonym may be the empty string - the default namespace as an alias; SHACL can say so)
+                tuple(rstr(rng, alpha, 0 if rng.random() < 0.15 else 1, 3) for _ in range(rng.randint(1, 2))) if rng.random() < 0.45 else (),
                 tuple(rstr(rng, alpha, 1, 5) for _ in range(rng.randint(1, 2))) if rng.random() < 0.45 else (),
                 rstr(rng, alpha, 0, 6) if rng.random() < 0.5 else None,
             ))
@@ -135,7 +136,7 @@ def run_case(ctx, g, rng):
         probe.note_key("epm:" + "+".join(sorted(ft)), bool(ft))
         S.counters["wl:epm"] += 1
     # the three text formats share the restricted alphabet
-    c, recs = gconv(api, rng, SAFE, True)
+    c, recs = gconv(api, rng, SAFE, rng.random() < 0.85)
     if c is None:
         return
     ft = features(recs)
